@@ -21,6 +21,7 @@ func init() {
 			`R05.4 the aggregator never loses a wound: on every path through its loop body the incoming wound is kept, merged or forwarded, the pending wound is forwarded before it is replaced, and flushed before close; ` +
 			`R05.5 the dir / symlink / file passes contain the deviation tests the property enumerates, each controlling a wound emission; ` +
 			`R05.6 every success return of the per-file check has passed a FILE wound emission or the copy of the file into the validating writer (no shortcut declares content valid unseen). ` +
+			`R05.8 Wound.Healthy() answers true only where Kind == CLOSED_FILE holds (every consumer skips healthy wounds). ` +
 			`NOT decided: that wounds cover every differing offset (block-size arithmetic, drip boundaries), interplay of last-block and size checks.`,
 		Assumptions: []string{"wound emission sites are sends (plain or in a select) on ValidatorContext.Wounds, directly or through a local closure that sends unconditionally"},
 		Run:         runC05,
@@ -96,6 +97,26 @@ func woundLits(p *core.Prog) []woundLit {
 				// one entry per constant the kind can be (a constant, or chosen among constants)
 				cs := constCases(v, a)
 				if len(cs) == 0 {
+					// a local literal that takes the kind as a parameter: the kinds its callers pass
+					if prm, ok := core.StripConv(v).(*ssa.Parameter); ok && fn.Parent() != nil {
+						idx := -1
+						for i, q := range fn.Params {
+							if q == prm {
+								idx = i
+							}
+						}
+						for _, g := range core.WithAnons(family(fn)) {
+							core.Instrs(g, func(x ssa.Instruction) {
+								cl, ok := x.(*ssa.Call)
+								if !ok || localCallee(cl) != fn || idx < 0 || idx >= len(cl.Call.Args) {
+									return
+								}
+								cs = append(cs, constCases(cl.Call.Args[idx], cl)...)
+							})
+						}
+					}
+				}
+				if len(cs) == 0 {
 					out = append(out, woundLit{fn, a, -1})
 				}
 				done := map[int64]bool{}
@@ -127,7 +148,8 @@ func runC05(c *core.Ctx) {
 		return
 	}
 
-	ruleHealthyVerdict(c, kinds)
+	ruleHealthyVerdict(c, kinds, false)
+	ruleOnlyMarkersAreHealthy(c, "R05.8", kinds)
 
 	// ---- R05.2
 	nLits := 0
@@ -176,6 +198,456 @@ func runC05(c *core.Ctx) {
 	}
 	c.Floor("R05.2", "FILE/CLOSED_FILE wound literals", nLits, 2)
 
+	ruleDeviationTable(c, kinds)
+	ruleAggregationLosesNothing(c, kinds)
+}
+
+func describeOr(v ssa.Value, has bool, def string) string {
+	if !has {
+		return def
+	}
+	return core.Describe(v)
+}
+
+// isBlockSizeValue: result of ComputeBlockSize or of a method that returns it.
+func isBlockSizeValue(v ssa.Value) bool {
+	for _, o := range core.Origins(v) {
+		cl, ok := o.(*ssa.Call)
+		if !ok {
+			return false
+		}
+		n := core.CalleeName(cl)
+		if n == "pwr.ComputeBlockSize" {
+			continue
+		}
+		// wrapper: a module function whose every return is a ComputeBlockSize result
+		var f *ssa.Function
+		if sc := cl.Call.StaticCallee(); sc != nil {
+			f = sc
+		} else if cl.Call.IsInvoke() && cl.Call.Method.Name() == "BlockSize" {
+			continue // BlockValidator.BlockSize: checked where it is implemented (below)
+		}
+		if f == nil || f.Blocks == nil {
+			return false
+		}
+		for _, rs := range core.Returns(f, 0) {
+			for _, ro := range core.Origins(rs.Val) {
+				rc, ok := ro.(*ssa.Call)
+				if !ok || core.CalleeName(rc) != "pwr.ComputeBlockSize" {
+					return false
+				}
+			}
+		}
+	}
+	return true
+}
+
+// guardTokens classifies a branch outcome by the API results it tests.
+func guardTokens(g core.Guard) []string {
+	var out []string
+	var originCall func(v ssa.Value) string
+	originCall = func(v ssa.Value) string {
+		for _, o := range core.Origins(v) {
+			if ex, ok := o.(*ssa.Extract); ok {
+				if cl, ok := ex.Tuple.(*ssa.Call); ok {
+					return core.CalleeName(cl)
+				}
+			}
+			if cl, ok := o.(*ssa.Call); ok {
+				n := core.CalleeName(cl)
+				// the cause of an error is that error, as far as its origin goes
+				if (n == "github.com/pkg/errors.Cause" || n == "errors.Unwrap") && len(cl.Call.Args) == 1 {
+					return originCall(cl.Call.Args[0])
+				}
+				return n
+			}
+		}
+		return ""
+	}
+	switch x := g.Cond.(type) {
+	case *ssa.Call:
+		n := core.CalleeName(x)
+		switch {
+		case x.Call.IsInvoke() && x.Call.Method.Name() == "IsDir":
+			if g.Val {
+				out = append(out, "IsDir")
+			} else {
+				out = append(out, "!IsDir")
+			}
+		case n == "pwr.isMissing" || n == "pwr.IsNotExist" || n == "os.IsNotExist":
+			if g.Val && len(x.Call.Args) == 1 {
+				src := originCall(x.Call.Args[0])
+				switch {
+				case strings.HasSuffix(src, "os.Lstat"):
+					out = append(out, "missing(Lstat)")
+				case strings.HasSuffix(src, "os.Readlink"):
+					out = append(out, "missing(Readlink)")
+				}
+			}
+		}
+	case *ssa.BinOp:
+		// Mode()&ModeSymlink ==/!= 0
+		if and, ok := x.X.(*ssa.BinOp); ok && and.Op == token.AND && (x.Op == token.EQL || x.Op == token.NEQ) {
+			if z, isC := core.ConstInt(x.Y); isC && z == 0 {
+				if m, isM := core.ConstInt(and.Y); isM && m == int64(1<<27) {
+					eq := (x.Op == token.EQL) == g.Val
+					if eq {
+						out = append(out, "ModeSymlink==0")
+					} else {
+						out = append(out, "ModeSymlink!=0")
+					}
+				}
+			}
+		}
+		if (x.Op == token.NEQ || x.Op == token.EQL) && core.IsNilConst(x.Y) {
+			if (x.Op == token.NEQ) == g.Val {
+				if src := originCall(x.X); strings.HasSuffix(src, ".GetReader") {
+					out = append(out, "openerr")
+				}
+			}
+		}
+		if x.Op == token.NEQ && g.Val || x.Op == token.EQL && !g.Val {
+			for _, pair := range [][2]ssa.Value{{x.X, x.Y}, {x.Y, x.X}} {
+				if strings.HasSuffix(originCall(pair[0]), "os.Readlink") && strings.HasSuffix(originCall(pair[1]), "filepath.FromSlash") {
+					out = append(out, "dest!=")
+				}
+			}
+		}
+		// copied vs size
+		isCopied := func(v ssa.Value) bool { return strings.HasSuffix(originCall(v), "io.Copy") }
+		isSize := func(v ssa.Value) bool { _, n, ok := core.FieldOf(v); return ok && n == "Size" }
+		var op token.Token
+		switch {
+		case isCopied(x.X) && isSize(x.Y):
+			op = x.Op
+		case isSize(x.X) && isCopied(x.Y):
+			switch x.Op {
+			case token.LSS:
+				op = token.GTR
+			case token.GTR:
+				op = token.LSS
+			case token.LEQ:
+				op = token.GEQ
+			case token.GEQ:
+				op = token.LEQ
+			default:
+				op = x.Op
+			}
+		}
+		switch {
+		case op == token.LSS && g.Val, op == token.GEQ && !g.Val:
+			out = append(out, "copied<size")
+		case op == token.GTR && g.Val, op == token.LEQ && !g.Val:
+			out = append(out, "copied>size")
+		case op == token.NEQ && g.Val, op == token.EQL && !g.Val:
+			out = append(out, "copied!=size")
+		}
+	}
+	return out
+}
+
+// ruleWoundsAreOwnedByTheMessage (R05.7, shared with C06): a *Wound sent on a channel is read later, by
+// another goroutine (the aggregator keeps the pointer until the next wound arrives). The object must
+// therefore be the message's own: allocated in the sending function and allocated anew before the send can
+// happen again - not a variable that outlives the call (captured from an enclosing function) or is reused
+// across iterations, which the sender overwrites while the receiver still holds it.
+func ruleWoundsAreOwnedByTheMessage(c *core.Ctx, rule string) {
+	c.Rule(rule, "a wound that is sent is not a variable the sender overwrites later")
+	n := 0
+	for _, fn := range c.P.SrcFuncs() {
+		if !strings.HasSuffix(core.PkgPathOf(fn), "/pwr") {
+			continue
+		}
+		core.Instrs(fn, func(in ssa.Instruction) {
+			var sent []ssa.Value
+			switch x := in.(type) {
+			case *ssa.Send:
+				sent = append(sent, x.X)
+			case *ssa.Select:
+				for _, st := range x.States {
+					if st.Send != nil {
+						sent = append(sent, st.Send)
+					}
+				}
+			}
+			for _, v := range sent {
+				if core.TypeName(v.Type()) != "pwr.Wound" {
+					continue
+				}
+				if _, isPtr := v.Type().Underlying().(*types.Pointer); !isPtr {
+					continue
+				}
+				for _, o := range core.Origins(v) {
+					switch a := o.(type) {
+					case *ssa.Alloc:
+						n++
+						own := a.Parent() == fn
+						fresh := own && core.FindPath(fn, in, isInstr(in), isInstr(a)) == nil
+						c.Check(own && fresh, rule, core.FnName(fn), "sent wound is a fresh object: "+core.Describe(v), core.InstrPos(in),
+							"allocated in the sending function, anew before every send", "the wound that is sent is a variable that the sender can overwrite while the receiver still holds the pointer (it outlives the call, or is reused across iterations): the aggregator forwards whatever the variable holds by then")
+					case *ssa.FreeVar:
+						n++
+						c.Bad(rule, core.FnName(fn), "sent wound is a fresh object: "+core.Describe(v), core.InstrPos(in),
+							"the address of a variable captured from an enclosing function is sent: the next call overwrites it while the receiver still holds the pointer")
+					}
+				}
+			}
+		})
+	}
+	c.Floor(rule, "sends of the address of a local wound", n, 1)
+}
+
+// ruleHealthyVerdict is R05.1 (shared with C18: what the validating pool reports rests on these verdicts).
+// emptyOnlyBeyond: whether an empty buffer excuses the verdict only beyond the signed block count (C09: the
+// safekeeper hands the validator an empty buffer for a file cut on a block boundary) or anywhere (the
+// validating pool's drip writer never validates an empty buffer, so there the path is dead).
+func ruleHealthyVerdict(c *core.Ctx, kinds map[string]int64, emptyOnlyBeyond bool) {
+	// ---- R05.1
+	for _, name := range []string{"blockValidator.ValidateAsWound", "blockValidator.ValidateAsError"} {
+		fn := c.P.Fn("pwr", name)
+		if fn == nil {
+			c.Missing("R05.1", "pwr."+name, "not found")
+			continue
+		}
+		// a healthy verdict: a program point with the branch outcomes that hold there
+		type verdict struct {
+			at     ssa.Instruction
+			guards []core.Guard
+		}
+		var healthy []verdict
+		if strings.HasSuffix(name, "AsError") {
+			for _, rs := range successReturns(fn) {
+				healthy = append(healthy, verdict{rs.Ret, core.Guards(rs.Ret)})
+			}
+		} else {
+			for _, rs := range core.Returns(fn, 0) {
+				for _, o := range core.Origins(rs.Val) {
+					if ld, ok := o.(*ssa.UnOp); ok && ld.Op == token.MUL {
+						o = ld.X
+					}
+					if a, ok := o.(*ssa.Alloc); ok {
+						if v, ok := litField(a, "Kind"); ok {
+							// the kind is a constant, or chosen among constants on the way here
+							for _, cs := range constCases(v, rs.Ret) {
+								if cs.k == kinds["CLOSED_FILE"] {
+									healthy = append(healthy, verdict{rs.Ret, cs.guards})
+								}
+							}
+						}
+					}
+					// the wound is made by a local literal that takes the kind as a parameter
+					if cl, ok := o.(*ssa.Call); ok {
+						if lit := localCallee(cl); lit != nil && lit.Parent() == fn {
+							for _, lrs := range core.Returns(lit, 0) {
+								for _, lo := range core.Origins(lrs.Val) {
+									if ld, ok := lo.(*ssa.UnOp); ok && ld.Op == token.MUL {
+										lo = ld.X
+									}
+									la, ok := lo.(*ssa.Alloc)
+									if !ok {
+										continue
+									}
+									kv, ok := litField(la, "Kind")
+									if !ok {
+										continue
+									}
+									for i, prm := range lit.Params {
+										if core.StripConv(kv) == ssa.Value(prm) && i < len(cl.Call.Args) {
+											for _, cs := range constCases(cl.Call.Args[i], rs.Ret) {
+												if cs.k == kinds["CLOSED_FILE"] {
+													healthy = append(healthy, verdict{rs.Ret, cs.guards})
+												}
+											}
+										}
+									}
+								}
+							}
+						}
+					}
+				}
+			}
+		}
+		if len(healthy) == 0 {
+			c.Bad("R05.1", core.FnName(fn), "healthy verdict", fn.Pos(), "no healthy return found (anchor changed shape)")
+			continue
+		}
+		dataParam := fn.Params[len(fn.Params)-1]
+		for _, vd := range healthy {
+			ret := vd.at
+			hasGuard := func(_ ssa.Instruction, pred func(core.Guard) bool) bool {
+				for _, g := range vd.guards {
+					if pred(g) {
+						return true
+					}
+				}
+				return false
+			}
+			strong := hasGuard(ret, func(g core.Guard) bool {
+				cl, ok := g.Cond.(*ssa.Call)
+				if !ok || !g.Val || core.CalleeName(cl) != "bytes.Equal" {
+					return false
+				}
+				var signed, computed bool
+				for _, a := range cl.Call.Args {
+					if _, n, ok := core.FieldOf(a); ok && n == "StrongHash" {
+						signed = true
+					}
+					for _, o := range core.Origins(a) {
+						if ex, ok := o.(*ssa.Extract); ok {
+							if hc, ok := ex.Tuple.(*ssa.Call); ok && strings.HasSuffix(core.CalleeName(hc), ".HashBlock") {
+								if len(hc.Call.Args) > 0 && hc.Call.Args[len(hc.Call.Args)-1] == ssa.Value(dataParam) {
+									computed = true
+								}
+							}
+						}
+					}
+				}
+				return signed && computed
+			})
+			inRange := hasGuard(ret, func(g core.Guard) bool {
+				bo, ok := g.Cond.(*ssa.BinOp)
+				if !ok {
+					return false
+				}
+				isLen := func(v ssa.Value) bool {
+					cl, ok := core.StripConv(v).(*ssa.Call)
+					if !ok {
+						return false
+					}
+					b, ok := cl.Call.Value.(*ssa.Builtin)
+					return ok && b.Name() == "len"
+				}
+				isIdx := func(v ssa.Value) bool { return core.StripConv(v) == ssa.Value(fn.Params[2]) }
+				switch {
+				case bo.Op == token.GEQ && isIdx(bo.X) && isLen(bo.Y):
+					return !g.Val
+				case bo.Op == token.LSS && isIdx(bo.X) && isLen(bo.Y):
+					return g.Val
+				case bo.Op == token.LEQ && isLen(bo.X) && isIdx(bo.Y):
+					return !g.Val
+				case bo.Op == token.GTR && isLen(bo.X) && isIdx(bo.Y):
+					return g.Val
+				}
+				return false
+			})
+			// an EMPTY block beyond the signed count carries no data that could differ (a read at EOF of a file whose
+			// size is a block multiple): declaring it healthy is not a violation
+			emptyData := hasGuard(ret, func(g core.Guard) bool {
+				bo, ok := g.Cond.(*ssa.BinOp)
+				if !ok {
+					return false
+				}
+				cl, ok := bo.X.(*ssa.Call)
+				if !ok {
+					return false
+				}
+				b, ok := cl.Call.Value.(*ssa.Builtin)
+				z, isC := core.ConstInt(bo.Y)
+				if !ok || b.Name() != "len" || cl.Call.Args[0] != ssa.Value(dataParam) || !isC || z != 0 {
+					return false
+				}
+				return (bo.Op == token.EQL && g.Val) || (bo.Op == token.NEQ && !g.Val) || (bo.Op == token.GTR && !g.Val)
+			})
+			beyond := hasGuard(ret, func(g core.Guard) bool {
+				bo, ok := g.Cond.(*ssa.BinOp)
+				if !ok {
+					return false
+				}
+				isLen := func(v ssa.Value) bool {
+					cl, ok := core.StripConv(v).(*ssa.Call)
+					if !ok {
+						return false
+					}
+					b, ok := cl.Call.Value.(*ssa.Builtin)
+					return ok && b.Name() == "len"
+				}
+				isIdx := func(v ssa.Value) bool { return core.StripConv(v) == ssa.Value(fn.Params[2]) }
+				switch {
+				case bo.Op == token.GEQ && isIdx(bo.X) && isLen(bo.Y):
+					return g.Val
+				case bo.Op == token.LSS && isIdx(bo.X) && isLen(bo.Y):
+					return !g.Val
+				case bo.Op == token.LEQ && isLen(bo.X) && isIdx(bo.Y):
+					return g.Val
+				case bo.Op == token.GTR && isLen(bo.X) && isIdx(bo.Y):
+					return !g.Val
+				}
+				return false
+			})
+			// only there: an empty buffer where the signature has a block is a file that ends too early
+			// (the safekeeper hands exactly that to the validator when a file is cut on a block boundary)
+			if emptyData && (beyond || !emptyOnlyBeyond) {
+				inRange, strong = true, true
+			}
+			c.Check(inRange, "R05.1", core.FnName(fn), "healthy verdict requires blockIndex < len(hashGroup)", core.InstrPos(ret),
+				"return is control-dependent on the block index being inside the signed hash group",
+				"a block beyond the signed block count can be declared healthy")
+			c.Check(strong, "R05.1", core.FnName(fn), "healthy verdict requires strong-hash equality", core.InstrPos(ret),
+				"return is control-dependent on bytes.Equal(signed StrongHash, HashBlock(data)) being true",
+				"a block can be declared healthy without its strong hash having been compared with the signed one")
+		}
+	}
+
+}
+
+// ruleOnlyMarkersAreHealthy is R05.8: every consumer (guardian, writer, printer, the healer's tally) skips
+// the wounds for which Healthy() is true. A DIR, SYMLINK or FILE wound is a reported deviation whatever its
+// range - a missing file that was signed as empty is the FILE wound [0,0) - so Healthy() may answer true
+// only for the kind that is a progress marker.
+func ruleOnlyMarkersAreHealthy(c *core.Ctx, rule string, kinds map[string]int64) {
+	c.Rule(rule, "only progress markers are healthy")
+	fn := c.P.Fn("pwr", "Wound.Healthy")
+	if fn == nil {
+		c.Missing(rule, "pwr.(*Wound).Healthy", "not found")
+		return
+	}
+	closed, ok := kinds["CLOSED_FILE"]
+	if !ok {
+		c.Missing(rule, "pwr.WoundKind_CLOSED_FILE", "not found")
+		return
+	}
+	isKind := func(v ssa.Value) bool {
+		for _, o := range core.Origins(v) {
+			if _, n, ok := core.FieldOf(o); ok && n == "Kind" {
+				return true
+			}
+		}
+		return false
+	}
+	n := 0
+	for _, rs := range core.Returns(fn, 0) {
+		if rs.Val == nil {
+			continue
+		}
+		for _, vc := range valueCases(rs.Val, rs.Ret) {
+			n++
+			if k, isB := core.ConstBool(vc.v); isB && !k {
+				continue
+			}
+			okV := false
+			// the comparison itself
+			if condHolds(vc.v, true, token.EQL, isKind, isConstInt(closed)) {
+				okV = true
+			}
+			for _, g := range vc.guards {
+				if relHolds(g, token.EQL, isKind, isConstInt(closed)) {
+					okV = true
+				}
+			}
+			// a conjunction the comparison is part of: a && b is a phi in SSA form, handled by the case guards
+			c.Check(okV, rule, core.FnName(fn), "a true answer implies Kind == CLOSED_FILE: "+core.Describe(vc.v), core.InstrPos(rs.Ret),
+				"the value returned is the comparison of Kind with CLOSED_FILE, false, or is returned only where that comparison holds",
+				"Healthy() can answer true for a wound of another kind: the consumers skip it, so a reported deviation (a missing file signed as empty is the FILE wound [0,0)) is neither printed, written, counted nor fatal in fail-fast mode")
+		}
+	}
+	c.Floor(rule, "values returned by Healthy", n, 1)
+}
+
+// ruleDeviationTable is R05.5 / R05.3 / R05.6 (shared with C06: the healer repairs what the validator reports).
+func ruleDeviationTable(c *core.Ctx, kinds map[string]int64) {
+	c.Rule("R05.3", "size mismatch after a successful copy controls a FILE wound, both directions")
+	c.Rule("R05.5", "classification table: each enumerated deviation test controls a wound emission")
+	c.Rule("R05.6", "no file is passed unseen")
 	// ---- R05.5 / R05.3: emission sites with their guard tokens
 	validateFn := c.P.Fn("pwr", "ValidatorContext.Validate")
 	worker := c.P.Fn("pwr", "ValidatorContext.validate")
@@ -429,6 +901,11 @@ func runC05(c *core.Ctx) {
 	}
 	c.Stats["R05.5.deviation_tests"] = nTok
 
+}
+
+// ruleAggregationLosesNothing is R05.4 (shared with C18: in wound mode the pieces tile the written range).
+func ruleAggregationLosesNothing(c *core.Ctx, kinds map[string]int64) {
+	c.Rule("R05.4", "aggregation loses no wound")
 	// ---- R05.4 (on the naive SSA form: the pending wound is a variable with loads and stores whether or
 	// not it is captured by the goroutine literal)
 	agg0 := c.P.Fn("pwr", "AggregateWounds")
@@ -587,332 +1064,4 @@ func runC05(c *core.Ctx) {
 			"the output can be closed while a pending wound has not been forwarded: the last damaged range of a file is lost")
 		o.Path = c.P.PathStrings(pp)
 	}
-}
-
-func describeOr(v ssa.Value, has bool, def string) string {
-	if !has {
-		return def
-	}
-	return core.Describe(v)
-}
-
-// isBlockSizeValue: result of ComputeBlockSize or of a method that returns it.
-func isBlockSizeValue(v ssa.Value) bool {
-	for _, o := range core.Origins(v) {
-		cl, ok := o.(*ssa.Call)
-		if !ok {
-			return false
-		}
-		n := core.CalleeName(cl)
-		if n == "pwr.ComputeBlockSize" {
-			continue
-		}
-		// wrapper: a module function whose every return is a ComputeBlockSize result
-		var f *ssa.Function
-		if sc := cl.Call.StaticCallee(); sc != nil {
-			f = sc
-		} else if cl.Call.IsInvoke() && cl.Call.Method.Name() == "BlockSize" {
-			continue // BlockValidator.BlockSize: checked where it is implemented (below)
-		}
-		if f == nil || f.Blocks == nil {
-			return false
-		}
-		for _, rs := range core.Returns(f, 0) {
-			for _, ro := range core.Origins(rs.Val) {
-				rc, ok := ro.(*ssa.Call)
-				if !ok || core.CalleeName(rc) != "pwr.ComputeBlockSize" {
-					return false
-				}
-			}
-		}
-	}
-	return true
-}
-
-// guardTokens classifies a branch outcome by the API results it tests.
-func guardTokens(g core.Guard) []string {
-	var out []string
-	var originCall func(v ssa.Value) string
-	originCall = func(v ssa.Value) string {
-		for _, o := range core.Origins(v) {
-			if ex, ok := o.(*ssa.Extract); ok {
-				if cl, ok := ex.Tuple.(*ssa.Call); ok {
-					return core.CalleeName(cl)
-				}
-			}
-			if cl, ok := o.(*ssa.Call); ok {
-				n := core.CalleeName(cl)
-				// the cause of an error is that error, as far as its origin goes
-				if (n == "github.com/pkg/errors.Cause" || n == "errors.Unwrap") && len(cl.Call.Args) == 1 {
-					return originCall(cl.Call.Args[0])
-				}
-				return n
-			}
-		}
-		return ""
-	}
-	switch x := g.Cond.(type) {
-	case *ssa.Call:
-		n := core.CalleeName(x)
-		switch {
-		case x.Call.IsInvoke() && x.Call.Method.Name() == "IsDir":
-			if g.Val {
-				out = append(out, "IsDir")
-			} else {
-				out = append(out, "!IsDir")
-			}
-		case n == "pwr.isMissing" || n == "pwr.IsNotExist" || n == "os.IsNotExist":
-			if g.Val && len(x.Call.Args) == 1 {
-				src := originCall(x.Call.Args[0])
-				switch {
-				case strings.HasSuffix(src, "os.Lstat"):
-					out = append(out, "missing(Lstat)")
-				case strings.HasSuffix(src, "os.Readlink"):
-					out = append(out, "missing(Readlink)")
-				}
-			}
-		}
-	case *ssa.BinOp:
-		// Mode()&ModeSymlink ==/!= 0
-		if and, ok := x.X.(*ssa.BinOp); ok && and.Op == token.AND && (x.Op == token.EQL || x.Op == token.NEQ) {
-			if z, isC := core.ConstInt(x.Y); isC && z == 0 {
-				if m, isM := core.ConstInt(and.Y); isM && m == int64(1<<27) {
-					eq := (x.Op == token.EQL) == g.Val
-					if eq {
-						out = append(out, "ModeSymlink==0")
-					} else {
-						out = append(out, "ModeSymlink!=0")
-					}
-				}
-			}
-		}
-		if (x.Op == token.NEQ || x.Op == token.EQL) && core.IsNilConst(x.Y) {
-			if (x.Op == token.NEQ) == g.Val {
-				if src := originCall(x.X); strings.HasSuffix(src, ".GetReader") {
-					out = append(out, "openerr")
-				}
-			}
-		}
-		if x.Op == token.NEQ && g.Val || x.Op == token.EQL && !g.Val {
-			for _, pair := range [][2]ssa.Value{{x.X, x.Y}, {x.Y, x.X}} {
-				if strings.HasSuffix(originCall(pair[0]), "os.Readlink") && strings.HasSuffix(originCall(pair[1]), "filepath.FromSlash") {
-					out = append(out, "dest!=")
-				}
-			}
-		}
-		// copied vs size
-		isCopied := func(v ssa.Value) bool { return strings.HasSuffix(originCall(v), "io.Copy") }
-		isSize := func(v ssa.Value) bool { _, n, ok := core.FieldOf(v); return ok && n == "Size" }
-		var op token.Token
-		switch {
-		case isCopied(x.X) && isSize(x.Y):
-			op = x.Op
-		case isSize(x.X) && isCopied(x.Y):
-			switch x.Op {
-			case token.LSS:
-				op = token.GTR
-			case token.GTR:
-				op = token.LSS
-			case token.LEQ:
-				op = token.GEQ
-			case token.GEQ:
-				op = token.LEQ
-			default:
-				op = x.Op
-			}
-		}
-		switch {
-		case op == token.LSS && g.Val, op == token.GEQ && !g.Val:
-			out = append(out, "copied<size")
-		case op == token.GTR && g.Val, op == token.LEQ && !g.Val:
-			out = append(out, "copied>size")
-		case op == token.NEQ && g.Val, op == token.EQL && !g.Val:
-			out = append(out, "copied!=size")
-		}
-	}
-	return out
-}
-
-// ruleWoundsAreOwnedByTheMessage (R05.7, shared with C06): a *Wound sent on a channel is read later, by
-// another goroutine (the aggregator keeps the pointer until the next wound arrives). The object must
-// therefore be the message's own: allocated in the sending function and allocated anew before the send can
-// happen again - not a variable that outlives the call (captured from an enclosing function) or is reused
-// across iterations, which the sender overwrites while the receiver still holds it.
-func ruleWoundsAreOwnedByTheMessage(c *core.Ctx, rule string) {
-	c.Rule(rule, "a wound that is sent is not a variable the sender overwrites later")
-	n := 0
-	for _, fn := range c.P.SrcFuncs() {
-		if !strings.HasSuffix(core.PkgPathOf(fn), "/pwr") {
-			continue
-		}
-		core.Instrs(fn, func(in ssa.Instruction) {
-			var sent []ssa.Value
-			switch x := in.(type) {
-			case *ssa.Send:
-				sent = append(sent, x.X)
-			case *ssa.Select:
-				for _, st := range x.States {
-					if st.Send != nil {
-						sent = append(sent, st.Send)
-					}
-				}
-			}
-			for _, v := range sent {
-				if core.TypeName(v.Type()) != "pwr.Wound" {
-					continue
-				}
-				if _, isPtr := v.Type().Underlying().(*types.Pointer); !isPtr {
-					continue
-				}
-				for _, o := range core.Origins(v) {
-					switch a := o.(type) {
-					case *ssa.Alloc:
-						n++
-						own := a.Parent() == fn
-						fresh := own && core.FindPath(fn, in, isInstr(in), isInstr(a)) == nil
-						c.Check(own && fresh, rule, core.FnName(fn), "sent wound is a fresh object: "+core.Describe(v), core.InstrPos(in),
-							"allocated in the sending function, anew before every send", "the wound that is sent is a variable that the sender can overwrite while the receiver still holds the pointer (it outlives the call, or is reused across iterations): the aggregator forwards whatever the variable holds by then")
-					case *ssa.FreeVar:
-						n++
-						c.Bad(rule, core.FnName(fn), "sent wound is a fresh object: "+core.Describe(v), core.InstrPos(in),
-							"the address of a variable captured from an enclosing function is sent: the next call overwrites it while the receiver still holds the pointer")
-					}
-				}
-			}
-		})
-	}
-	c.Floor(rule, "sends of the address of a local wound", n, 1)
-}
-
-// ruleHealthyVerdict is R05.1 (shared with C18: what the validating pool reports rests on these verdicts).
-func ruleHealthyVerdict(c *core.Ctx, kinds map[string]int64) {
-	// ---- R05.1
-	for _, name := range []string{"blockValidator.ValidateAsWound", "blockValidator.ValidateAsError"} {
-		fn := c.P.Fn("pwr", name)
-		if fn == nil {
-			c.Missing("R05.1", "pwr."+name, "not found")
-			continue
-		}
-		// a healthy verdict: a program point with the branch outcomes that hold there
-		type verdict struct {
-			at     ssa.Instruction
-			guards []core.Guard
-		}
-		var healthy []verdict
-		if strings.HasSuffix(name, "AsError") {
-			for _, rs := range successReturns(fn) {
-				healthy = append(healthy, verdict{rs.Ret, core.Guards(rs.Ret)})
-			}
-		} else {
-			for _, rs := range core.Returns(fn, 0) {
-				for _, o := range core.Origins(rs.Val) {
-					if ld, ok := o.(*ssa.UnOp); ok && ld.Op == token.MUL {
-						o = ld.X
-					}
-					if a, ok := o.(*ssa.Alloc); ok {
-						if v, ok := litField(a, "Kind"); ok {
-							// the kind is a constant, or chosen among constants on the way here
-							for _, cs := range constCases(v, rs.Ret) {
-								if cs.k == kinds["CLOSED_FILE"] {
-									healthy = append(healthy, verdict{rs.Ret, cs.guards})
-								}
-							}
-						}
-					}
-				}
-			}
-		}
-		if len(healthy) == 0 {
-			c.Bad("R05.1", core.FnName(fn), "healthy verdict", fn.Pos(), "no healthy return found (anchor changed shape)")
-			continue
-		}
-		dataParam := fn.Params[len(fn.Params)-1]
-		for _, vd := range healthy {
-			ret := vd.at
-			hasGuard := func(_ ssa.Instruction, pred func(core.Guard) bool) bool {
-				for _, g := range vd.guards {
-					if pred(g) {
-						return true
-					}
-				}
-				return false
-			}
-			strong := hasGuard(ret, func(g core.Guard) bool {
-				cl, ok := g.Cond.(*ssa.Call)
-				if !ok || !g.Val || core.CalleeName(cl) != "bytes.Equal" {
-					return false
-				}
-				var signed, computed bool
-				for _, a := range cl.Call.Args {
-					if _, n, ok := core.FieldOf(a); ok && n == "StrongHash" {
-						signed = true
-					}
-					for _, o := range core.Origins(a) {
-						if ex, ok := o.(*ssa.Extract); ok {
-							if hc, ok := ex.Tuple.(*ssa.Call); ok && strings.HasSuffix(core.CalleeName(hc), ".HashBlock") {
-								if len(hc.Call.Args) > 0 && hc.Call.Args[len(hc.Call.Args)-1] == ssa.Value(dataParam) {
-									computed = true
-								}
-							}
-						}
-					}
-				}
-				return signed && computed
-			})
-			inRange := hasGuard(ret, func(g core.Guard) bool {
-				bo, ok := g.Cond.(*ssa.BinOp)
-				if !ok {
-					return false
-				}
-				isLen := func(v ssa.Value) bool {
-					cl, ok := core.StripConv(v).(*ssa.Call)
-					if !ok {
-						return false
-					}
-					b, ok := cl.Call.Value.(*ssa.Builtin)
-					return ok && b.Name() == "len"
-				}
-				isIdx := func(v ssa.Value) bool { return core.StripConv(v) == ssa.Value(fn.Params[2]) }
-				switch {
-				case bo.Op == token.GEQ && isIdx(bo.X) && isLen(bo.Y):
-					return !g.Val
-				case bo.Op == token.LSS && isIdx(bo.X) && isLen(bo.Y):
-					return g.Val
-				case bo.Op == token.LEQ && isLen(bo.X) && isIdx(bo.Y):
-					return !g.Val
-				case bo.Op == token.GTR && isLen(bo.X) && isIdx(bo.Y):
-					return g.Val
-				}
-				return false
-			})
-			// an EMPTY block beyond the signed count carries no data that could differ (a read at EOF of a file whose
-			// size is a block multiple): declaring it healthy is not a violation
-			emptyData := hasGuard(ret, func(g core.Guard) bool {
-				bo, ok := g.Cond.(*ssa.BinOp)
-				if !ok {
-					return false
-				}
-				cl, ok := bo.X.(*ssa.Call)
-				if !ok {
-					return false
-				}
-				b, ok := cl.Call.Value.(*ssa.Builtin)
-				z, isC := core.ConstInt(bo.Y)
-				if !ok || b.Name() != "len" || cl.Call.Args[0] != ssa.Value(dataParam) || !isC || z != 0 {
-					return false
-				}
-				return (bo.Op == token.EQL && g.Val) || (bo.Op == token.NEQ && !g.Val) || (bo.Op == token.GTR && !g.Val)
-			})
-			if emptyData {
-				inRange, strong = true, true
-			}
-			c.Check(inRange, "R05.1", core.FnName(fn), "healthy verdict requires blockIndex < len(hashGroup)", core.InstrPos(ret),
-				"return is control-dependent on the block index being inside the signed hash group",
-				"a block beyond the signed block count can be declared healthy")
-			c.Check(strong, "R05.1", core.FnName(fn), "healthy verdict requires strong-hash equality", core.InstrPos(ret),
-				"return is control-dependent on bytes.Equal(signed StrongHash, HashBlock(data)) being true",
-				"a block can be declared healthy without its strong hash having been compared with the signed one")
-		}
-	}
-
 }
